@@ -323,7 +323,7 @@ impl Prop for C06 {
     fn runs(&self, t: Tier) -> u64 {
         match t {
             Tier::Quick => 20_000,
-            Tier::Thorough => 1_500_000,
+            Tier::Thorough => 10_000_000,
         }
     }
     fn nontrivial_rule(&self) -> &'static str {
